@@ -3,3 +3,9 @@ check("C16",
       text="Complete enumeration: thorough runs every one of the 2^32 int32 values (hence every byte quadruple) through BytesFromLowBits / I32FromBytes of the rebuilt repo and compares split, join and round trip with encoding/binary little-endian; quick enumerates the 4*3*2^24 values having one byte pinned to 0x00/0x80/0xff. The property is a finite statement, so enumeration decides it outright.",
       note="Trusts encoding/binary.LittleEndian as the definition of byte i = bits 8i..8i+7 and the Go compiler; sw/lw round trip through the instruction layer is covered by C02.",
       ref="DESIGN.md §2 C16")
+
+check("C13",
+      technique="explicit-state BFS over the real LRUCache APIs with a list reference model, state de-duplication, to fix-point for small geometries",
+      text="Explicit-state search: every history of PushLine / PushLineWithEvictionWarning / Get / GetCacheLine / GetSubCacheLine / Write / EvictCacheLine over 3-5 lines (small geometries: complete reachable state space; 64B/1KB and 128B/4KB: bounded depth after a capacity-filling prefix, restricted line alphabet) and Put/Get/Find of the generic LRU (capacity 1-3, to fix-point) is executed on the real object and on an MRU-ordered list model; every edge compares return values and the whole line list. Finite-state components, so state enumeration is the natural decision procedure.",
+      note="Successors are produced by replaying the shortest history on a fresh object; canonical state = MRU-ordered (base, contents) list (+ announced victim), which determines all future behaviour of both sides. Write only inside a resident line; caller never aliases line contents.",
+      ref="DESIGN.md §2 C13")
